@@ -21,11 +21,32 @@ func Transpile(elkRegex string, flags bitfield.BitField8) (string, diagnostic.Di
 	}
 
 	t := &transpiler{Flags: flags}
+	t.globalFlags()
 	t.transpileNode(ast)
 	if t.Errors != nil {
 		return "", t.Errors
 	}
 	return t.Buffer.String(), nil
+}
+
+// Write the flags of the regex literal that Go understands (`i`, `m`, `s`, `U`)
+// as a leading flag group eg. `(?im)`, so that they apply to the whole pattern.
+// The remaining flags (`x`, `a`) are handled by the transpiler itself.
+func (t *transpiler) globalFlags() {
+	var hasVisibleFlags bool
+	for _, fl := range flag.Flags {
+		if !t.Flags.HasFlag(fl) || !flag.IsSupportedByGo(fl) {
+			continue
+		}
+		if !hasVisibleFlags {
+			t.Buffer.WriteString(`(?`)
+			hasVisibleFlags = true
+		}
+		t.Buffer.WriteRune(flag.ToChar(fl))
+	}
+	if hasVisibleFlags {
+		t.Buffer.WriteRune(')')
+	}
 }
 
 // Transpiler mode
